@@ -165,6 +165,14 @@ def apply_changes(LA, changes):
     new entry is set.  Returns (listing, problems)."""
     res = dict(LA)
     problems = []
+    consumed = set()
+    for t, o, n in changes:
+        # an old path is used up by a delete, by being renamed away or by being modified in place; a copy leaves it alone.
+        # "delete a" next to "modify a" (or "rename a -> b" next to "modify a") mentions a path twice
+        if t in ("delete", "rename", "modify"):
+            if o[0] in consumed:
+                problems.append(("old-path-consumed-twice", o[0]))
+            consumed.add(o[0])
     for t, o, n in changes:
         if t in ("delete", "rename"):
             if o[0] not in res:
